@@ -380,7 +380,12 @@ func findHeaderWriter(p *Program) *ssa.Function {
 		}
 		for _, call := range calls(f) {
 			if call.Common().StaticCallee() == cw && len(call.Common().Args) > 0 {
-				if _, ok := call.Common().Args[0].(*ssa.Alloc); ok {
+				// receiver: a local chunk, by address (pointer receiver) or by value (value receiver)
+				a := call.Common().Args[0]
+				if l, ok := a.(*ssa.UnOp); ok && l.Op == token.MUL {
+					a = l.X
+				}
+				if _, ok := a.(*ssa.Alloc); ok {
 					found = append(found, f)
 				}
 			}
@@ -557,6 +562,27 @@ func findEventEncoder(p *Program) *ssa.Function {
 	}
 	if len(found) == 1 {
 		return found[0]
+	}
+	// several layers take (delta, message) — e.g. an outer Write(delta, msg) that validates and an inner encoder: the
+	// encoder proper is the innermost one (it calls none of the other candidates)
+	isCand := map[*ssa.Function]bool{}
+	for _, f := range found {
+		isCand[f] = true
+	}
+	var inner []*ssa.Function
+	for _, f := range found {
+		callsOther := false
+		for _, call := range calls(f) {
+			if cal := call.Common().StaticCallee(); cal != nil && cal != f && isCand[cal] {
+				callsOther = true
+			}
+		}
+		if !callsOther {
+			inner = append(inner, f)
+		}
+	}
+	if len(inner) == 1 {
+		return inner[0]
 	}
 	return nil
 }
@@ -755,7 +781,12 @@ func findTrackFlush(p *Program) *ssa.Function {
 	for _, f := range p.Reachable(wt) {
 		for _, call := range calls(f) {
 			if call.Common().StaticCallee() == cw && len(call.Common().Args) > 0 {
-				if _, ok := call.Common().Args[0].(*ssa.FieldAddr); ok {
+				// receiver: the address of the chunk field (pointer receiver) or its loaded value (value receiver)
+				a := call.Common().Args[0]
+				if l, ok := a.(*ssa.UnOp); ok && l.Op == token.MUL {
+					a = l.X
+				}
+				if _, ok := a.(*ssa.FieldAddr); ok {
 					found = append(found, f)
 				}
 			}
@@ -849,10 +880,13 @@ func ruleTrackFlush(c *Ctx, rule string) {
 				ok = false
 				why = "chunk body is not cleared after the flush: the next track would repeat this track's bytes"
 			}
-			dl, _ := ex.getField(o.St, wp, "deltatime")
-			if di, _ := dl.(*IntV); di == nil || !o.St.sameInt(di, mkConst(0, 32, false)) {
-				ok = false
-				why = "pending delta not reset after the flush"
+			// a writer that keeps a pending delta must clear it (a writer that gets the delta as a parameter has none;
+			// the whole-file simulation checks the deltas of the track that follows either way)
+			if dl, has := ex.getField(o.St, wp, "deltatime"); has {
+				if di, _ := dl.(*IntV); di == nil || !o.St.sameInt(di, mkConst(0, 32, false)) {
+					ok = false
+					why = "pending delta not reset after the flush"
+				}
 			}
 		}
 		c.Check(ok && succ > 0, rule, fmt.Sprintf("track flush leaves a clean writer (NoRunningStatus=%v)", noRS), p.Pos(fl.Pos()), "on every successful flush: stored running status cleared, chunk body empty, pending delta 0", why)
@@ -1726,51 +1760,10 @@ func rulePlumbing(c *Ctx, rule string) {
 	setDelta := p.roleFunc("smf.writer.SetDelta")
 	write := p.roleFunc("smf.writer.Write")
 	newW := p.roleFunc("smf.newWriter")
-	if setDelta != nil && write != nil {
-		c.Fn(FuncName(write))
-		ex := NewExec(p)
-		st := ex.NewState()
-		wp, _ := mkWriterObj(ex, st, p, mkConst(1, 16, false), mkConst(1, 16, false), &IfaceV{Nil: true})
-		ex.setField(st, wp, "headerWritten", &BoolV{Known: true, Val: true})
-		d := mkSym(ex.syms.Get("delta", 32, false))
-		st.refineSym(d.T.Syms[0], 128, 16383)
-		k8 := func(v int64) Val { return mkConst(v, 8, false) }
-		msg := ex.mkBytes(st, "m", []Val{k8(0x91), dataTok(ex, st, "k"), dataTok(ex, st, "v")}, false, 0)
-		ok := true
-		why := ""
-		n := 0
-		for _, o1 := range ex.Call(st, setDelta, []Val{wp, d}, nil) {
-			for _, o := range ex.Call(o1.St, write, []Val{wp, msg}, nil) {
-				n++
-				if o.Panic {
-					ok = false
-					why = o.Msg
-					continue
-				}
-				ev, _ := o.Ret[0].(*IfaceV)
-				if ev == nil || !ev.Nil {
-					continue
-				}
-				cv, _ := ex.getField(o.St, wp, "currentChunk.data")
-				sl, _ := cv.(*SliceV)
-				got, okg := ex.sliceSegs(o.St, sl)
-				ms, _ := ex.sliceSegs(o.St, msg)
-				want := append([]Seg{{Elems: intVals(vlqSpecBytes(o.St, d, 2))}}, ms...)
-				if !okg || !segsEqual(got, normSegs(want), o.St.sameVal) {
-					ok = false
-					why = "after SetDelta(d); Write(m) the chunk holds " + arrayStringIn(o.St, &ArrayV{Segs: got}) + ", expected VLQ(d) followed by the message"
-				}
-				dv, _ := ex.getField(o.St, wp, "deltatime")
-				if di, _ := dv.(*IntV); di == nil || !o.St.sameInt(di, mkConst(0, 32, false)) {
-					ok = false
-					why = "the pending delta is not cleared after the event (it would be added to the next event as well)"
-				}
-			}
-		}
-		c.Check(ok && n > 0, rule, "writer: SetDelta + Write puts the delta in front of the event once", p.Pos(write.Pos()), "chunk = VLQ(delta) ++ event; pending delta reset to 0", why)
-	} else {
-		c.Unk(rule, "writer.SetDelta / Write", "-", "not found")
-	}
+	// (a) writer: each event goes out as VLQ(its own delta) ++ bytes, once (whole-file simulation; independent of how
+	// the delta is handed to the encoder — pending field or parameter)
+	runWriteToSim(c, "", "", "", "", rule)
+	_, _ = setDelta, write
 	if newW != nil {
 		c.Fn(FuncName(newW))
 		for _, noRS := range []bool{false, true} {
